@@ -368,5 +368,8 @@ theorem build_dead (p : Prog) : ∀ (B B' : BState) (top : Scope) (rest : List S
   | istmt s k _ =>
     intro B B' top rest h hw hsc hd
     simp [build] at h
+  | enif c body k _ _ =>
+    intro B B' top rest h hw hsc hd
+    simp [build] at h
 
 end Gatery.C05
